@@ -16,6 +16,7 @@ import subprocess
 import sys
 import tempfile
 import threading
+import zlib
 from fractions import Fraction
 from pathlib import Path
 
@@ -431,6 +432,21 @@ def _write_file(f, d, name, fmt="tsv", row_group=None, suffix=None, dict_strings
     return p
 
 
+def _reference_keys(paths, files):
+    """the hashes _split must work on, from pandas' own reading of the whole file (no mokapot code involved); None when
+    pandas cannot say (the comparison with the implementation's keys is then left out, nothing else)"""
+    import pandas as pd
+    try:
+        out = []
+        for p, f in zip(paths, files):
+            df = pd.read_parquet(p) if p.suffix == ".parquet" else pd.read_csv(p, sep="\t")
+            vals = df[[x for x in SPEC_COLS if x in f["data"]]].values
+            out.append([zlib.crc32(str(tuple(x[:2])).encode()) for x in vals])
+        return out
+    except Exception:
+        return None
+
+
 def _parse_result(path):
     """header and rows of a result file: numbers as floats, everything else as text"""
     import pandas as pd
@@ -487,6 +503,10 @@ def _run(cfg):
                 dss = mokapot.read_pin(paths, max_workers=cfg.get("read_workers", 1))
                 obs["features"] = [list(ds.feature_columns) for ds in dss]
                 obs["keys"] = [brewlib.spectrum_keys(ds) for ds in dss]
+                obs["spectrum_columns"] = [list(ds.spectrum_columns) for ds in dss]
+                ref = _reference_keys(paths, cfg["files"])
+                if ref is not None:
+                    obs["ref_keys"] = ref
                 brewlib.reset_log()
                 if cfg.get("learner") == "percolator":
                     model = mokapot.PercolatorModel(train_fdr=cfg.get("train_fdr", 0.2), max_iter=3, rng=cfg["seed"])
@@ -776,21 +796,13 @@ def _int_features(case):
     return all(isinstance(v, int) for f in case["files"] for c in f["columns"] if c.startswith("feat") for v in f["data"][c])
 
 
-def _relabel(case, obs):
-    """files as the extracted Brew model wants them: feature k of the estimator = column 'rid' (k = 0) / 'feat<k-1>'"""
-    files = []
-    for f, feats in zip(case["files"], obs["features"]):
-        data = {c: f["data"][c] for c in f["data"] if not _is_feature(c)}
-        data["rid"] = f["data"][feats[0]]
-        for k, name in enumerate(feats[1:]):
-            data["feat%d" % k] = f["data"][name]
-        files.append({"columns": list(data.keys()), "data": data, "targets": f["targets"]})
-    return files
-
-
 def _fr_obs(obs):
+    """the observation as harness/props/c02.py: compare wants it: exact rationals for the scores; c02 resolves the column a
+    fold model learned through obs["features"] (the feature columns read_pin kept, in file order), checks
+    obs["spectrum_columns"] against the canonical key order and obs["keys"] against obs["ref_keys"] (pandas' own reading)"""
     o = dict(obs)
     o["scores"] = [[Fraction(v) if v == v and abs(v) != float("inf") else None for v in s] for s in obs["scores"]]
+    o.setdefault("rescore", None)
     return o
 
 
@@ -814,7 +826,7 @@ def _baseline_vs_model(case, cfg0, got0):
                 if abs(obs["scores"][j][r] - e) > 1e-9 * max(1.0, abs(e)):
                     return "ensemble scores (mean of the fold models)"
     elif _int_features(case) and obs["features"] and all(ft and ft[0] == "rid" for ft in obs["features"]):
-        cm = dict(cfg0, files=_relabel(case, obs))
+        cm = dict(cfg0)
         m, i = c02.compare(cm, ("ok", _fr_obs(obs)))
         if not c02.same(cm, m, i):
             return "brew (fold partition / training sets / routing / scores of Model/Brew.v)"
